@@ -9,6 +9,8 @@ package harness
 
 import (
 	"fmt"
+	"math"
+	"math/big"
 	"strconv"
 	"strings"
 )
@@ -44,6 +46,7 @@ type Stmt struct {
 	Fn      string     `json:"fn,omitempty"`
 	Args    []*Expr    `json:"args,omitempty"`
 	Words   []TextPart `json:"words,omitempty"` // cmd: name and arguments (literal word or {expression})
+	Note    string     `json:"note,omitempty"`  // generator's label (classification only)
 }
 
 type Opt struct {
@@ -485,6 +488,9 @@ type interp struct {
 	stopAtErr bool
 
 	diverged  bool
+	lastStmt  *Stmt // the statement entered most recently (the one a following error belongs to)
+	errNote   string
+	sawRandom bool // a random built-in was evaluated successfully: its value is not modelled
 	jumpTo    *Node
 	leftNodes map[string]bool // nodes left through a jump at least once
 	// statistics for classification
@@ -546,6 +552,12 @@ func (m *interp) callFn(name string, args []mval) (mval, bool, error) {
 	case "noret":
 		m.fnLog = append(m.fnLog, "noret()")
 		return mval{}, false, nil
+	case "dice", "random_range", "random":
+		if err := randomDomainError(name, args); err != nil {
+			return mval{}, false, err
+		}
+		m.sawRandom = true
+		return numVal(1), true, nil
 	}
 	return probeCall(name, args, &m.fnLog)
 }
@@ -573,6 +585,9 @@ func (m *interp) tick() bool {
 
 func (m *interp) fail(err error) sig {
 	m.stats.errs++
+	if m.errNote == "" && m.lastStmt != nil {
+		m.errNote = m.lastStmt.K + ":" + m.lastStmt.Note
+	}
 	if m.emit(Ev{K: "err", Text: err.Error()}) || m.stopAtErr {
 		return sHalt
 	}
@@ -641,6 +656,7 @@ func (m *interp) nested(body []*Stmt) sig {
 }
 
 func (m *interp) stmt(s *Stmt) sig {
+	m.lastStmt = s
 	switch s.K {
 	case "line":
 		text, err := m.renderText(s.Text)
@@ -890,4 +906,50 @@ func (m *interp) assign(name, op string, e *Expr) error {
 		return evalErrf("%s on booleans", op)
 	}
 	return nil
+}
+
+// randomDomainError: the arguments for which dice / random_range / random must fail (statement of C06).
+// nil means "may succeed" (then C09 says what the result must look like).
+func randomDomainError(name string, args []mval) error {
+	want := map[string]int{"dice": 1, "random_range": 2, "random": 0}[name]
+	if len(args) != want {
+		return evalErrf("%s expects %d arguments, got %d", name, want, len(args))
+	}
+	for _, a := range args {
+		if a.T != 'n' {
+			return evalErrf("%s: argument is a %s", name, a.typeName())
+		}
+		if a.N != a.N || a.N > 1.7e308 || a.N < -1.7e308 || a.N >= 9223372036854775808.0 || a.N < -9223372036854775808.0 {
+			return evalErrf("%s: argument %v is not representable as an integer", name, a.N)
+		}
+	}
+	// Non-integral arguments: the statement does not say how they become integers, so an error is only
+	// demanded when no reading (floor, ceiling, truncation) gives a valid call.
+	switch name {
+	case "dice":
+		if args[0].N <= 0 {
+			return evalErrf("dice needs at least one side")
+		}
+	case "random_range":
+		loFloor, _ := new(big.Float).SetFloat64(math.Floor(args[0].N)).Int(nil)
+		loCeil, _ := new(big.Float).SetFloat64(math.Ceil(args[0].N)).Int(nil)
+		hiFloor, _ := new(big.Float).SetFloat64(math.Floor(args[1].N)).Int(nil)
+		hiCeil, _ := new(big.Float).SetFloat64(math.Ceil(args[1].N)).Int(nil)
+		if hiCeil.Cmp(loFloor) < 0 {
+			return evalErrf("random_range: upper bound below lower bound")
+		}
+		size := new(big.Int).Sub(hiFloor, loCeil)
+		size.Add(size, big.NewInt(1))
+		if size.Cmp(new(big.Int).SetUint64(1<<63)) >= 0 {
+			return evalErrf("random_range: range too large")
+		}
+	}
+	return nil
+}
+
+func truncF(f float64) float64 {
+	if f < 0 {
+		return -float64(int64(-f))
+	}
+	return float64(int64(f))
 }
